@@ -395,8 +395,10 @@ extern "C" int LLVMFuzzerTestOneInput(const uint8_t *data, size_t size) {
         c.ops.push_back(o);
     }
     rt::Args a;
+    const std::string text = to_text(c);
+    rt::fuzz_pre(text);
     rt::Verdict v = eval_case(c, a);
-    fuzz_account(to_text(c), v);
+    fuzz_account(text, v);
     return 0;
 }
 #endif
